@@ -289,6 +289,10 @@ type siteJ struct {
 	Kind string `json:"kind"`
 	A    int    `json:"a"`
 	B    int    `json:"b"`
+	// optional earlier mutation applied to the OBSERVED side (the one that must not change)
+	PreKind string `json:"prekind"`
+	PreA    int    `json:"prea"`
+	PreB    int    `json:"preb"`
 }
 
 type obsJ = Ev
@@ -348,11 +352,29 @@ func mutate(p *rtp.Packet, s siteJ) (applied bool, res string) {
 	return applied, res
 }
 
+// spareCapacity leaves an empty extension list with spare capacity behind (what a
+// DelExtension of the only element, or a reused receiver, produces).
+func spareCapacity(p *rtp.Packet) {
+	if !p.Extension || len(p.Extensions) != 0 {
+		return
+	}
+	id := uint8(1)
+	if p.ExtensionProfile != 0xBEDE && p.ExtensionProfile != 0x1000 {
+		id = 0
+	}
+	if p.SetExtension(id, []byte{1, 2, 3, 4}) == nil {
+		_ = p.DelExtension(id)
+	}
+}
+
 func runC20(raw json.RawMessage, w *Writer) {
 	c, want := parseRtpCase(raw)
 	for _, s := range c.Sites {
 		w.Emit(Ev{"ev": "reset", "class": c.Class})
 		orig, err := buildPacket(c.P)
+		if err == nil {
+			spareCapacity(orig)
+		}
 		if err != nil {
 			w.Emit(Ev{"ev": "skip", "why": "unconstructible: " + err.Error()})
 			return
@@ -375,15 +397,24 @@ func runC20(raw json.RawMessage, w *Writer) {
 		if s.Side == "clone" {
 			target, other = clone, orig
 		}
+		if s.PreKind != "" {
+			// the observed side has its own history since the clone was taken
+			pa, pr := mutate(other, siteJ{Kind: s.PreKind, A: s.PreA, B: s.PreB})
+			w.Emit(Ev{"ev": "premutate", "which": "packet", "site": s, "applied": pa, "res": pr, "other": observe(other)})
+		}
 		applied, mres := mutate(target, s)
 		w.Emit(Ev{"ev": "mutate", "which": "packet", "site": s, "applied": applied, "res": mres, "other": observe(other)})
 		// header clone: fresh pair
 		orig2, _ := buildPacket(c.P)
+		spareCapacity(orig2)
 		h2 := orig2.Header.Clone()
 		hc = &rtp.Packet{Header: h2}
 		t2, o2 := orig2, hc
 		if s.Side == "clone" {
 			t2, o2 = hc, orig2
+		}
+		if s.PreKind != "" && s.PreKind != "payload" && s.PreKind != "padsize" {
+			mutate(o2, siteJ{Kind: s.PreKind, A: s.PreA, B: s.PreB})
 		}
 		before := observeH(&o2.Header)
 		applied2, mres2 := false, "ok"
